@@ -438,6 +438,9 @@ pub fn c04(case_seed: u64, acc: &mut Acc) {
                 variant = "missing";
             }
         }
+    } else {
+        // a failed driver call returns nothing: the values read before it stay the latest
+        maybe_fault(&mut case, &mut r, 200);
     }
     let ran = run_oracles(
         &case,
@@ -453,6 +456,7 @@ pub fn c04(case_seed: u64, acc: &mut Acc) {
             acc.tag_n("reads_after_midclock_write", st.reads_after_midclock as u64);
             acc.tag_n("zx_read_error_prescribed", ran.rf.items.iter().any(|i| matches!(i, RefItem::Err(crate::refint::RefErr::ReadZX(_)))) as u64);
             acc.tag_n("missing_output_ctor_error", ran.rf.construct_err.is_some() as u64);
+            acc.tag_n("driver_error_injected", !_c.script.faults.is_empty() as u64);
         },
     );
     if let Some(ran) = ran {
@@ -782,6 +786,7 @@ pub fn c14(case_seed: u64, acc: &mut Acc) {
             case.program.items.insert(0, Item::Let(n, Expr::Num(v, Radix::Dec)));
         }
     }
+    maybe_fault(&mut case, &mut r, 150);
     run_oracles(
         &case,
         case_seed,
@@ -830,7 +835,8 @@ pub fn c18(case_seed: u64, acc: &mut Acc) {
         c.block_items = (1, 4);
         c
     };
-    let case = gen::generate(&mut r, &cfg);
+    let mut case = gen::generate(&mut r, &cfg);
+    maybe_fault(&mut case, &mut r, 150);
     run_oracles(
         &case,
         case_seed,
